@@ -24,8 +24,18 @@ type mpipe struct {
 // signals Done once the cap is exceeded or the writer finished, and keeps draining so that a
 // program writing T bytes (any T relative to N, any chunking, writer faster than reader) is
 // never blocked forever and never gets EPIPE.
-func VerifC08_OutputCollector() {
+func VerifC08_OutputCollector() { c08collector(false) }
+
+// VerifC08_OutputCollectorBulk: the same collector against a program that writes 3 MiB
+// through a 64 KiB pipe (deterministic full-size transfers): however much is written beyond
+// the cap, the collector keeps draining - the writer is never blocked and never sees EPIPE.
+func VerifC08_OutputCollectorBulk() { c08collector(true) }
+
+func c08collector(bulk bool) {
 	p := &mpipe{capacity: 3}
+	if bulk {
+		p.capacity = 64 << 10
+	}
 	var rf, wf *os.File
 	sym.Intercept("os.Pipe", func() (*os.File, *os.File, error) {
 		rf, wf = new(os.File), new(os.File)
@@ -43,13 +53,16 @@ func VerifC08_OutputCollector() {
 		if p.buf == 0 {
 			return 0, io.EOF
 		}
-		n := 1 + sym.Choose("read_chunk", p.buf)
+		n := p.buf
+		if !bulk {
+			n = 1 + sym.Choose("read_chunk", p.buf)
+		}
 		if n > len(b) {
 			n = len(b)
 		}
 		p.buf -= n
 		p.totalRead += n
-		for i := 0; i < n; i++ {
+		for i := 0; i < n && (!bulk || i < 4); i++ {
 			b[i] = 'o'
 		}
 		return n, nil
@@ -59,6 +72,9 @@ func VerifC08_OutputCollector() {
 		// os.File's WriterTo fast path: generic copy loop
 		var total int64
 		buf := make([]byte, 4)
+		if bulk {
+			buf = make([]byte, 32<<10)
+		}
 		for {
 			n, err := read(f, buf)
 			if n > 0 {
@@ -83,7 +99,12 @@ func VerifC08_OutputCollector() {
 		return nil
 	})
 	N := int64(sym.Choose("cap", 3))
-	T := sym.Choose("total", 7)
+	T := 0
+	if bulk {
+		T = 3 << 20
+	} else {
+		T = sym.Choose("total", 7)
+	}
 	b, err := NewBuffer(N)
 	sym.Assert(err == nil && b != nil, "NewBuffer must succeed")
 	if b == nil {
@@ -102,7 +123,12 @@ func VerifC08_OutputCollector() {
 				break
 			}
 			n := 1
-			if left > 1 && p.capacity-p.buf > 1 && sym.Bool("two_byte_write") {
+			if bulk {
+				n = p.capacity - p.buf
+				if n > left {
+					n = left
+				}
+			} else if left > 1 && p.capacity-p.buf > 1 && sym.Bool("two_byte_write") {
 				n = 2
 			}
 			p.buf += n
